@@ -127,6 +127,18 @@ def detect_slots(S):
     def bf_default():
         return _defaults(_func('bycycle/features/burst.py', 'compute_burst_fraction'))['min_n_cycles']
     out['burst_fraction_min_n_default'] = S.get('burst_fraction.min_n_cycles_default', 3, bf_default)
+    def duration_test():
+        fn = _func('bycycle/features/burst.py', 'compute_burst_fraction')
+        for n in ast.walk(fn):
+            if isinstance(n, ast.If) and 'min_burst_duration' in ast.unparse(n.test):
+                t = ast.unparse(n.test)
+                if t == 'min_burst_duration is not None':
+                    return '.isNotNone'
+                if t == 'min_burst_duration':
+                    return '.truthy'
+                raise ValueError('test outside grammar: ' + t)
+        return None
+    out['duration_test'] = S.get('burst_fraction.duration_test', '.isNotNone', duration_test)
     cd, ad = out['cyc_defaults'], out['amp_defaults']
     lean = """/- GENERATED by harness/slots.py from /repo (bycycle/burst/cycle.py, bycycle/burst/amp.py,
    bycycle/features/features.py, bycycle/features/burst.py). Do not edit. -/
@@ -152,6 +164,8 @@ def ampDefaultMinN : Rat := %s
 /-- default used when neither dictionary carries `min_n_cycles` (features.py). -/
 def reconcileDefaultMinN : Rat := %s
 def burstFractionDefaultMinN : Rat := %s
+/-- the test that switches the sample-wise detector from cycles to seconds (`if min_burst_duration is not None`). -/
+def durationTest : OptTest := %s
 
 end Bycycle.Slots
 """ % (out['cmp_amp_fraction'], out['cmp_amp_consistency'], out['cmp_period_consistency'], out['cmp_monotonicity'],
@@ -160,10 +174,151 @@ end Bycycle.Slots
        _rat(cd['amp_fraction_threshold']), _rat(cd['amp_consistency_threshold']), _rat(cd['period_consistency_threshold']),
        _rat(cd['monotonicity_threshold']), _rat(cd['min_n_cycles']),
        out['amp_cmp'], _rat(ad['burst_fraction_threshold']), _rat(ad['min_n_cycles']),
-       _rat(out['reconcile_default']), _rat(out['burst_fraction_min_n_default']))
+       _rat(out['reconcile_default']), _rat(out['burst_fraction_min_n_default']), out['duration_test'])
     return 'SlotsDetect.lean', lean
 
-GROUPS = [detect_slots]
+
+# ------------------------------------------------------------------ cyclepoints (C01, C02, C03)
+import re as _re
+OPTXT = {'>': '.gt', '>=': '.ge', '<': '.lt', '<=': '.le', '==': '.eq', '!=': '.ne'}
+
+def _compare_by_pattern(fn, lhs_rx, rhs_rx):
+    """find `lhs op rhs` (or flipped) among the Compare nodes of fn by their unparsed operands"""
+    for n in ast.walk(fn):
+        if isinstance(n, ast.Compare) and len(n.ops) == 1:
+            l, r = ast.unparse(n.left), ast.unparse(n.comparators[0])
+            if _re.fullmatch(lhs_rx, l) and _re.fullmatch(rhs_rx, r):
+                return CMP[type(n.ops[0])]
+            if _re.fullmatch(lhs_rx, r) and _re.fullmatch(rhs_rx, l):
+                return FLIP[CMP[type(n.ops[0])]]
+    return None
+
+def cyclepoints_slots(S):
+    zx = 'bycycle/cyclepoints/zerox.py'; ex = 'bycycle/cyclepoints/extrema.py'
+    o = {}
+    def pos_cmp(which):
+        def th():
+            fn = _func(zx, 'find_flank_zerox')
+            for n in ast.walk(fn):
+                if isinstance(n, ast.Assign) and isinstance(n.value, ast.IfExp) and ast.unparse(n.targets[0]) == 'pos':
+                    t = ast.unparse(n.value.test)
+                    rise_branch, decay_branch = (n.value.body, n.value.orelse) if t in ("flank == 'rise'",) else \
+                        ((n.value.orelse, n.value.body) if t in ("flank == 'decay'",) else (None, None))
+                    b = rise_branch if which == 'rise' else decay_branch
+                    if isinstance(b, ast.Compare) and len(b.ops) == 1 and ast.unparse(b.left) == 'sig' and ast.unparse(b.comparators[0]) == 'midpoint':
+                        return CMP[type(b.ops[0])]
+            return None
+        return th
+    o['risePos'] = S.get('zerox.rise_pos', '.le', pos_cmp('rise'))
+    o['decayPos'] = S.get('zerox.decay_pos', '.gt', pos_cmp('decay'))
+    def inv_cmp(which):
+        def th():
+            fn = _func(zx, '_find_flank_midpoints')
+            for n in ast.walk(fn):
+                if isinstance(n, ast.Assign) and ast.unparse(n.targets[0]) == 'comp' and isinstance(n.value, ast.IfExp):
+                    t = ast.unparse(n.value.test)
+                    a, b = ast.unparse(n.value.body), ast.unparse(n.value.orelse)
+                    if t == "flank == 'decay'":
+                        a, b = b, a
+                    elif t != "flank == 'rise'":
+                        return None
+                    nm = a if which == 'rise' else b
+                    return {'gt': '.gt', 'lt': '.lt', 'ge': '.ge', 'le': '.le'}.get(nm)
+            return None
+        return th
+    o['riseInv'] = S.get('zerox.rise_inverted', '.gt', inv_cmp('rise'))
+    o['decayInv'] = S.get('zerox.decay_inverted', '.lt', inv_cmp('decay'))
+    def window_plus():
+        fn = _func(zx, '_find_flank_midpoints')
+        for n in ast.walk(fn):
+            if isinstance(n, ast.Assign) and ast.unparse(n.targets[0]) == 'sig_temp' and isinstance(n.value, ast.Subscript) \
+                    and isinstance(n.value.slice, ast.Slice):
+                lo, up = ast.unparse(n.value.slice.lower), ast.unparse(n.value.slice.upper)
+                if lo != 'extrema_start[idx]':
+                    return None
+                m = _re.fullmatch(r'extrema_end\[idx \+ idx_bias\](?: \+ (\d+))?', up)
+                if m:
+                    return int(m.group(1) or 0)
+        return None
+    o['windowPlus'] = S.get('zerox.window_plus', 1, window_plus)
+    fe = lambda: _func(ex, 'find_extrema')
+    o['boundLo'] = S.get('extrema.boundary_lo', '.gt', lambda: _compare_by_pattern(fe(), r'peaks', r'boundary'))
+    o['boundHi'] = S.get('extrema.boundary_hi', '.lt', lambda: _compare_by_pattern(fe(), r'peaks', r'sig_len - boundary'))
+    o['tboundLo'] = S.get('extrema.boundary_lo_troughs', '.gt', lambda: _compare_by_pattern(fe(), r'troughs', r'boundary'))
+    o['tboundHi'] = S.get('extrema.boundary_hi_troughs', '.lt', lambda: _compare_by_pattern(fe(), r'troughs', r'sig_len - boundary'))
+    o['lastCross'] = S.get('extrema.last_crossing', '.gt', lambda: _compare_by_pattern(fe(), r'rise_xs\[-1\]', r'decay_xs\[-1\]'))
+    o['scanDecay'] = S.get('extrema.scan_decay', '.gt', lambda: _compare_by_pattern(fe(), r'decay', r'last_rise'))
+    o['scanRise'] = S.get('extrema.scan_rise', '.gt', lambda: _compare_by_pattern(fe(), r'rise', r'last_decay'))
+    def branch(test_src):
+        for n in ast.walk(fe()):
+            if isinstance(n, ast.If) and ast.unparse(n.test) == test_src:
+                return ast.Module(body=n.body, type_ignores=[])
+        raise ValueError('branch %s not found' % test_src)
+    o['trimPF'] = S.get('extrema.trim_peak_first', '.gt', lambda: _compare_by_pattern(branch("first_extrema == 'peak'"), r'peaks\[0\]', r'troughs\[0\]'))
+    o['trimPL'] = S.get('extrema.trim_peak_last', '.gt', lambda: _compare_by_pattern(branch("first_extrema == 'peak'"), r'peaks\[-1\]', r'troughs\[-1\]'))
+    o['trimTF'] = S.get('extrema.trim_trough_first', '.gt', lambda: _compare_by_pattern(branch("first_extrema == 'trough'"), r'troughs\[0\]', r'peaks\[0\]'))
+    o['trimTL'] = S.get('extrema.trim_trough_last', '.gt', lambda: _compare_by_pattern(branch("first_extrema == 'trough'"), r'troughs\[-1\]', r'peaks\[-1\]'))
+    def row_slices():
+        fn = _func('bycycle/features/cyclepoints.py', 'compute_cyclepoints')
+        rows = []
+        for n in fn.body:
+            if isinstance(n, ast.Assign) and isinstance(n.targets[0], ast.Subscript) and ast.unparse(n.targets[0].value) == 'samples':
+                col = ast.literal_eval(n.targets[0].slice)
+                v = n.value
+                if isinstance(v, ast.Name):
+                    rows.append((col, v.id, 0, 0))
+                elif isinstance(v, ast.Subscript) and isinstance(v.value, ast.Name) and isinstance(v.slice, ast.Slice) and v.slice.step is None:
+                    lo = ast.literal_eval(v.slice.lower) if v.slice.lower is not None else 0
+                    up = ast.literal_eval(v.slice.upper) if v.slice.upper is not None else 0
+                    if lo < 0 or up > 0:
+                        raise ValueError('slice outside grammar')
+                    rows.append((col, v.value.id, lo, -up))
+                else:
+                    raise ValueError('row expression outside grammar')
+        return rows or None
+    pinned_rows = [('sample_peak', 'peaks', 1, 0), ('sample_last_zerox_decay', 'decays', 0, 1), ('sample_zerox_decay', 'decays', 1, 0),
+                   ('sample_zerox_rise', 'rises', 0, 0), ('sample_last_trough', 'troughs', 0, 1), ('sample_next_trough', 'troughs', 1, 0)]
+    o['rows'] = S.get('cyclepoints.row_slices', pinned_rows, row_slices)
+    rows_lean = ',\n  '.join('("%s", "%s", %d, %d)' % r for r in o['rows'])
+    lean = """/- GENERATED by harness/slots.py from /repo (bycycle/cyclepoints/zerox.py, bycycle/cyclepoints/extrema.py,
+   bycycle/features/cyclepoints.py). Do not edit. -/
+import BycycleModel.Basic
+namespace Bycycle.Slots
+
+/-- `pos = sig <= midpoint` for rising flanks: comparator applied as `x cmp midpoint`. -/
+def risePosCmp : Cmp := %s
+def decayPosCmp : Cmp := %s
+/-- inverted-flank test `comp(sig_temp[0], sig_temp[-1])`. -/
+def riseInvertedCmp : Cmp := %s
+def decayInvertedCmp : Cmp := %s
+/-- the `+ 1` that makes the flank window include the end extremum. -/
+def flankWindowPlus : Nat := %d
+/-- boundary filter `peaks > boundary`, `peaks < sig_len - boundary`. -/
+def boundaryLoCmp : Cmp := %s
+def boundaryHiCmp : Cmp := %s
+def boundaryLoCmpTroughs : Cmp := %s
+def boundaryHiCmpTroughs : Cmp := %s
+/-- `rise_xs[-1] > decay_xs[-1]`. -/
+def lastCrossingCmp : Cmp := %s
+/-- `decay > last_rise`, `rise > last_decay` in the advancing scans. -/
+def scanDecayCmp : Cmp := %s
+def scanRiseCmp : Cmp := %s
+/-- `peaks[0] > troughs[0]`, `peaks[-1] > troughs[-1]` in the first_extrema == 'peak' trimming. -/
+def trimFirstCmp : Cmp := %s
+def trimLastCmp : Cmp := %s
+/-- `troughs[0] > peaks[0]`, `troughs[-1] > peaks[-1]` in the first_extrema == 'trough' trimming. -/
+def trimFirstCmpTrough : Cmp := %s
+def trimLastCmpTrough : Cmp := %s
+/-- row assembly of compute_cyclepoints: (column, source array, dropped at the front, dropped at the end). -/
+def rowSlices : List (String × String × Nat × Nat) := [
+  %s]
+
+end Bycycle.Slots
+""" % (o['risePos'], o['decayPos'], o['riseInv'], o['decayInv'], o['windowPlus'], o['boundLo'], o['boundHi'], o['tboundLo'], o['tboundHi'],
+       o['lastCross'], o['scanDecay'], o['scanRise'], o['trimPF'], o['trimPL'], o['trimTF'], o['trimTL'], rows_lean)
+    return 'SlotsCyclepoints.lean', lean
+
+GROUPS = [detect_slots, cyclepoints_slots]
 
 def write_if_changed(path, text):
     try:
